@@ -33,7 +33,7 @@ RULE = (
 ASSUMPTIONS = [
     "'under jit' = the loss / generator is a pytree argument of the jitted function (how solve runs them) and eqx.filter_jit of the bound method; jax.jit(loss.evaluate) on the bound method is not a supported call",
     "snapshots = bytes of every array leaf + the pytree structure (static fields) of params, batches, generators and the loss; hidden state is provoked through sequences, not snapshotted",
-    "x64; repeats exact, eager / jit / value_and_grad primal within 1e-12 relative; draws bit-exact",
+    "x64; repeats exact, eager / jit / value_and_grad primal within 1e-12 relative; draws bit-exact (the five jit-first cases run in 32-bit mode: 2e-4 on expected values, 1e-5 across modes)",
 ]
 BOUNDS = {"quick": {"depth": 2}, "thorough": {"depth": 3}}
 KINDS = ["ode", "statio", "nonstatio", "sys_ode", "sys_pde"]
@@ -53,6 +53,15 @@ def cases(tier, seed):
             chunk = 25
             for i in range(0, len(seqs), chunk):
                 out.append(dict(kind=kind, form=form, seqs=seqs[i:i + chunk], key=seed + 21))
+    # the first evaluation ever made with a given batch size happens under jit (a batch size used by no other case of the
+    # process), then eagerly, under value-and-grad and under jit with the other argument set: a value memoised while tracing
+    # would leak into the later calls
+    for kind in ("ode", "statio", "nonstatio"):
+        for zero in (0, 0.0):
+            out.append(dict(type="nanzero", kind=kind, zero=zero, form="plain", seqs=[], key=seed + 21))
+    for ki, kind in enumerate(KINDS):
+        # (run in the default 32-bit mode: the runner gives these cases their own freshly started worker processes)
+        out.append(dict(kind=kind, form="both", seqs=[["Ja", "Ea", "Ga", "Jb", "Eb"]], key=seed + 21, b=3 + ki, x64=False))
     return out
 
 
@@ -86,7 +95,8 @@ def build_sets(case):
     """fresh objects: one loss, two argument sets"""
     kind, form = case["kind"], case["form"]
     bk = c12.base_kind(kind)
-    b = 2
+    b = case.get("b", 2)
+    OB = np.concatenate([c12.OBS_B, 0.7 * c12.OBS_B + 0.1])
     # the equation declares only one of its three parameters in its heterogeneity map (as "not heterogeneous"): the
     # documentation allows missing keys
     P = c12.build(dict(kind=kind, site="both", b=b), hetero={"c": None})
@@ -101,7 +111,7 @@ def build_sets(case):
             vals_o = np.linspace(0.2, 0.6, b)[:, None] * scale
             # argument set A' gives the observed values of its single-output network as a flat (rows,) array
             o = {"pinn_in": jnp.asarray(L.points(b, nv, salt=8 + salt)), "val": jnp.asarray(vals_o[:, 0] if tag == "b" else vals_o),
-                 "eq_params": {"b": jnp.asarray(c12.OBS_B[:b] * scale)}}
+                 "eq_params": {"b": jnp.asarray(OB[:b] * scale)}}
             obs = {"u": o} if kind.startswith("sys") else o
         batch = L.make_batch(bk, pts, param=pb, obs=obs)
         key = jax.random.PRNGKey(case["key"] + salt)
@@ -109,17 +119,17 @@ def build_sets(case):
         if bk == "ode":
             # set A: fresh generator, 5 points; set A': 4 points (batch size divides it), already drawn from up to the end
             # of its first epoch, so that the next draw is a reshuffle
-            gen = jinns.data.DataGeneratorODE(k1, 5 if tag == "a" else 4, 0.0, 1.0, b)
+            gen = jinns.data.DataGeneratorODE(k1, (2 * b + 1 if tag == "a" else 2 * b), 0.0, 1.0, b)
             if tag == "b":
                 for _ in range(2):
                     gen, _unused = jit_of("advance", lambda g: g.get_batch())(gen)
             rows = b
         elif bk == "statio":
-            gen = jinns.data.CubicMeshPDEStatio(key=k1, n=5, nb=8, omega_batch_size=b, omega_border_batch_size=1, dim=2, min_pts=(-1.0, 0.0), max_pts=(2.0, 1.0))
+            gen = jinns.data.CubicMeshPDEStatio(key=k1, n=2 * b + 1, nb=8, omega_batch_size=b, omega_border_batch_size=1, dim=2, min_pts=(-1.0, 0.0), max_pts=(2.0, 1.0))
             rows = b
         else:
             # temporal batch much larger than the spatial one (related sizes differ)
-            gen = jinns.data.CubicMeshPDENonStatio(key=k1, n=5, nb=8, nt=9, omega_batch_size=b, omega_border_batch_size=1, temporal_batch_size=b + 3, dim=2,
+            gen = jinns.data.CubicMeshPDENonStatio(key=k1, n=2 * b + 1, nb=8, nt=2 * (b + 3) - 1, omega_batch_size=b, omega_border_batch_size=1, temporal_batch_size=b + 3, dim=2,
                                                    min_pts=(-1.0, 0.0), max_pts=(2.0, 1.0), tmin=0.0, tmax=1.0)
             rows = (b + 3) * b
         pgen = jinns.data.DataGeneratorParameter(k2, 2 * rows + 1, rows, {"a": (0.5, 1.5)}) if form in ("param", "both") else None
@@ -138,7 +148,7 @@ def build_sets(case):
         if pb is not None:
             vals["a"] = c12.rows_of("a", b) * scale
         exp = c12.oracle_terms(P2, pts, o if form in ("obs", "both") else {"pinn_in": np.zeros((0, nv)), "val": np.zeros((0, 1))}, vals,
-                               {"b": c12.OBS_B[:b] * scale} if form in ("obs", "both") else None)
+                               {"b": OB[:b] * scale} if form in ("obs", "both") else None)
         if form not in ("obs", "both"):
             exp["observations"] = 0.0
         sets[tag] = dict(params=params, batch=batch, gen=gen, pgen=pgen, ogen=ogen, expected=exp)
@@ -203,7 +213,7 @@ def run_seq(case, seq):
         key = (cls, t)
         if cls == "eval":
             exp = sets[t]["expected"]
-            bad = [k for k in exp if abs(payload[1].get(k, float("nan")) - exp[k]) > 1e-9 * (1 + abs(exp[k]))]
+            bad = [k for k in exp if not abs(payload[1].get(k, float("nan")) - exp[k]) <= (1e-9 if case.get("x64", True) else 2e-4) * (1 + abs(exp[k]))]
             if bad:
                 v.append(V(site, "evaluation_result_differs_from_the_value_for_these_arguments",
                            f"sequence {''.join(seq)} step {i} ({letter}): {bad[0]} = {payload[1].get(bad[0])} expected {exp[bad[0]]} (stale or foreign state?)"))
@@ -218,7 +228,7 @@ def run_seq(case, seq):
                     break
             else:
                 exact = op0 == op
-                tol = 0.0 if exact else 1e-12
+                tol = 0.0 if exact else (1e-12 if case.get("x64", True) else 1e-5)
                 vals = [(payload[0], p0[0])] + [(payload[1][k], p0[1][k]) for k in payload[1]]
                 if any(abs(a - b) > tol * (1 + abs(b)) for a, b in vals):
                     v.append(V(site, f"evaluation_result_differs({op0}_then_{op})", f"sequence {''.join(seq)} step {i}: {payload[0]} vs {p0[0]}"))
@@ -231,7 +241,44 @@ def run_seq(case, seq):
     return v, "|".join(f"{k[0]}{k[1]}:{(p[1][0] if k[0] == 'eval' else hash(p[1]) % 997)}" for k, p in sorted(first.items()))
 
 
+def run_nanzero(case):
+    """a term switched off by a weight that is exactly 0 while its data contain a non-finite value: eager, value-and-grad,
+    filter_jit and jax.jit (loss as an argument: the weight is traced) must return the same thing, NaN for NaN"""
+    kind = case["kind"]
+    d = 0 if kind == "ode" else 1
+    nv = L.nvar_of(kind, d)
+    site = f"purity/{kind}/zero_weight_non_finite_data"
+    u, coef, expo = L.make_u(kind, d, 1, deg=2, salt=6)
+    params = jinns.parameters.Params(nn_params=u.init_params(), eq_params={"b": jnp.asarray(-0.4), "a": jnp.asarray(0.7)})
+    zero = case["zero"]
+    W = {"ode": jinns.loss.LossWeightsODE, "statio": jinns.loss.LossWeightsPDEStatio, "nonstatio": jinns.loss.LossWeightsPDENonStatio}[kind]
+    LS = {"ode": jinns.loss.LossODE, "statio": jinns.loss.LossPDEStatio, "nonstatio": jinns.loss.LossPDENonStatio}[kind]
+    kw = dict(initial_condition=(0.3, jnp.asarray([0.2]))) if kind == "ode" else {}
+    loss = L.quiet(LS, u=u, dynamic_loss=L.user_eq(kind, 1), loss_weights=W(dyn_loss=1.0, observations=zero), params=params, **kw)
+    val = np.array([[np.nan], [0.3], [-0.2]])
+    obs = {"pinn_in": jnp.asarray(L.points(3, nv, salt=8)), "val": jnp.asarray(val), "eq_params": {}}
+    batch = L.make_batch(kind, L.points(3, nv), obs=obs)
+    res = {}
+    res["eager"] = loss.evaluate(params, batch)
+    res["value_and_grad"] = jax.value_and_grad(lambda p: loss.evaluate(p, batch), has_aux=True)(params)[0]
+    res["filter_jit"] = eqx.filter_jit(lambda l, p, b: l.evaluate(p, b))(loss, params, batch)
+    res["jax.jit"] = jax.jit(lambda l, p, b: l.evaluate(p, b))(loss, params, batch)
+    flat = {m: {"total": float(r[0]), **{k: float(x) for k, x in r[1].items()}} for m, r in res.items()}
+    v = []
+    ref = flat["eager"]
+    for m, f in flat.items():
+        for k in ref:
+            a, b_ = f[k], ref[k]
+            same = (np.isnan(a) and np.isnan(b_)) or (not np.isnan(a) and not np.isnan(b_) and abs(a - b_) <= 1e-12 * (1 + abs(b_)))
+            if not same:
+                v.append(V(site, "result_depends_on_the_execution_mode", f"weight {zero!r}: {k}: eager {b_} vs {m} {a}"))
+    return dict(viol=v, evals=4, states=1, transitions=4, traces=1, nontrivial=[f"nanzero|{kind}|{zero!r}"],
+                outcomes=[f"nanzero|{kind}|{flat['eager']['total']}"], sample={"case": case, "eager": {k: str(x) for k, x in ref.items()}})
+
+
 def run_case(case):
+    if case.get("type") == "nanzero":
+        return run_nanzero(case)
     viol, outcomes, nontriv = [], set(), []
     ntrans = 0
     for seq in case["seqs"]:
